@@ -22,7 +22,7 @@ SECT_I = ["Ntoks", "Ntext", "Nmap", "Ltoks", "Ltext", "Lmap", "warn", "Ncols", "
 M_NTOK, M_NTEXT, M_NMAP, M_LTOK, M_LTEXT, M_LMAP, M_WARN, M_FUEL, M_WF, M_KNOWN, M_CMN, M_CML, M_CIN, M_CIL, \
     M_EWARN, M_PATHS, M_EXPN, M_EXPL, M_NUMS = range(19)
 
-KNOWN_IDS = {13: "D13", 14: "D14", 15: "D15", 17: "D17", 23: "D23", 24: "D24", 25: "D25", 26: "D26"}
+KNOWN_IDS = {13: "D13", 14: "D14", 15: "D15", 17: "D17", 23: "D23", 24: "D24", 25: "D25", 26: "D26", 27: "D27"}
 
 RUNS = os.path.join(CACHE, "css_runs")
 
